@@ -310,7 +310,7 @@ def plan(tier, seed):
                         'punctuation probes: every %s hierarchy over 6 tokens x every choice of 4 punctuation positions x words from {\", (}: root_attach, then each of the three punctuation re-attachments, step invariants on each (single steps, no BFS)' % ('continuous' if tier == 'quick' else ''),
                         'depth probes: %d fixed pipelines of 6-9 steps (beyond the depth bound; collapsing before and un-collapsing after a split, two rounds of split and raising, binarization inside a collapse / uncollapse pair) run step by step on live objects from every initial tree with n <= 4, u <= 1, p <= 1' % len(DEPTH_PROBES),
                         'canonical form is a sound state abstraction (DESIGN.md §3.4)',
-                        'live paths: every state is also reached on LIVE objects along the path by which it was first discovered (no rebuild between steps; initial objects rotate over API-built / reversed child lists / export reader / TIGER-XML reader / written once by the export writer) and the step invariants are evaluated on every live transition - one live transition per state, counted in extra.live_transitions',
+                        'live paths: every state is also reached on LIVE objects along the path by which it was first discovered (no rebuild between steps; initial objects rotate over API-built / reversed child lists / export reader / TIGER-XML reader / written once by the export writer) and the step invariants are evaluated on every live transition, before every second of which a reader is opened on another small corpus and read to its end (export, TIGER-XML, bracket reader in turn) - one live transition per state, counted in extra.live_transitions',
                         'head marks count as present only if no restructuring happened since (prerequisite reading)',
                         'raising is enabled after boyd_split until binarize/collapse/uncollapse rebuild nodes (they carry no split marks)',
                         'a tree collapsed to a bare token only admits uncollapse'],
@@ -335,6 +335,9 @@ def live_initial(mt, i):
     return prov, pickle.dumps(t, pickle.HIGHEST_PROTOCOL)
 
 
+_LIVE_COUNT = [0]
+
+
 def live_step(blob, op, fname, params, flags, hist, prov, res):
     """The same transition on the LIVE objects of the path by which the state was first reached (never rebuilt
     from the canonical form, so whatever earlier steps, a reader or a writer left on the nodes is still there).
@@ -346,6 +349,12 @@ def live_step(blob, op, fname, params, flags, hist, prov, res):
     res.add_extra('live_transitions')
     try:
         from ..livepool import short_watchdog
+        from ..bridge import reader_history
+        # the tree is not alone in the process: before every second step a reader is opened on another (smaller) corpus
+        # and read to its end - export, TIGER-XML and bracket reader in turn
+        _LIVE_COUNT[0] += 1
+        if _LIVE_COUNT[0] % 2:
+            reader_history()
         with short_watchdog(10.0):
             r = getattr(transform, fname)(lt, **params)
         probs = check_step(pre, op, r)
@@ -624,6 +633,8 @@ def check_case(case):
                 fname, params = OPS[op]
                 pre = pre_summary(t)
                 try:
+                    from ..bridge import reader_history
+                    reader_history()
                     t = getattr(transform, fname)(t, **params)
                     probs = check_step(pre, op, t)
                 except Exception as e:
